@@ -143,7 +143,7 @@ def gen_wait(rnd, *, timeouts=True, log_step=None, targeted_ext=True):
     return spec
 
 
-HOSTILE = ["raise", "pred_raise", "str", "nan", "neg"]
+HOSTILE = ["raise", "pred_raise", "str", "nan", "neg", "ok", "ok"]   # "ok": a well-behaved user policy (retries at once, n times)
 
 
 def gen_outcomes(rnd):
@@ -171,7 +171,7 @@ def gen_outcomes(rnd):
         steps["work2"]["declare"] = ["EvC"]
     elif mode == "hostile":
         kind = rnd.choice(HOSTILE)
-        steps["work1"]["retry"] = {"hostile": kind, "n": rnd.randint(1, 3)}
+        steps["work1"]["retry"] = {"hostile": kind, "n": rnd.randint(1, 3), "shape": rnd.choice(["class", "class", "dataclass", "namespace"])}
         for it in steps["start"]["acts"]:
             if it["k"] == "send" and it["type"] == "EvA":
                 for x in it["items"]:
@@ -545,5 +545,18 @@ def gen_waitsink(rnd):
     replies = [{"delay": rnd.choice([0.5, 1, 2]), "type": "Answer", "pay": {"key": "{v}"}}]
     spec = {"family": "waitsink", "steps": steps, "timeout": None, "responders": [{"on": "Ask", "replies": replies}],
             "externals": [{"at": gap * n + 5, "type": "EvU", "pay": {}}], "meta": {"n": n, "style": "once", "timeout": None, "req": not use_default, "may_wait_forever": False}}
+    return spec
+
+
+def gen_collect2(rnd):
+    """collect family where every invocation of the collecting step feeds TWO buffers (the same events gathered twice,
+    independently).  Used for the slot / concurrency monitors only (C01); the per-buffer collect oracle does not apply."""
+    spec = gen_collect(rnd)
+    acts = spec["steps"][1]["acts"]
+    i = next(k for k, a in enumerate(acts) if a["k"] == "collect")
+    c = acts[i]
+    acts[i:i + 1] = [dict(c, buf_from=None, buf="x", cont=True), dict(c, buf_from=None, buf="y")]
+    spec["family"] = "collect2"
+    spec["timeout"] = 60.0
     return spec
 
